@@ -162,9 +162,9 @@ def main(ctx):
     # T ---------------------------------------------------------------------------------------
     trace = ctx.path("trace.ndjson")
     if thorough:
-        opts = dict(closest=120, index=60, assign=40, kmer=400, maxrefs=500, idxrefs=80, idxmaxlen=90)
+        opts = dict(closest=180, index=90, assign=60, kmer=600, maxrefs=500, idxrefs=80, idxmaxlen=90)
     else:
-        opts = dict(closest=8, index=6, assign=4, kmer=40, maxrefs=300, idxrefs=36, idxmaxlen=50)
+        opts = dict(closest=10, index=8, assign=6, kmer=60, maxrefs=300, idxrefs=36, idxmaxlen=50)
     args = ["record", "C15", "--out", trace]
     for k, v in opts.items():
         args += ["--opt", "%s=%d" % (k, v)]
